@@ -106,6 +106,52 @@ type outRun struct {
 // traceAccepted asks TLC whether the concatenation of the traces is a
 // behaviour of the trace specification.
 func traceAccepted(module, cfgText string, traces [][]brk.TraceEv) (bool, *tlcrun.Result, error) {
+	// On acceptance TLC prints the whole accepting behaviour, one state per event: big batches
+	// are validated in slices, a few TLC processes at a time.
+	const slice = 600
+	if len(traces) > slice {
+		type out struct {
+			ok  bool
+			res *tlcrun.Result
+			err error
+		}
+		n := (len(traces) + slice - 1) / slice
+		outs := make([]out, n)
+		var wg sync.WaitGroup
+		sem := make(chan struct{}, 4)
+		for i := 0; i < n; i++ {
+			wg.Add(1)
+			sem <- struct{}{}
+			go func(i int) {
+				defer wg.Done()
+				defer func() { <-sem }()
+				hi := (i + 1) * slice
+				if hi > len(traces) {
+					hi = len(traces)
+				}
+				ok, res, err := traceAccepted(module, cfgText, traces[i*slice:hi])
+				outs[i] = out{ok, res, err}
+			}(i)
+		}
+		wg.Wait()
+		all := true
+		sum := &tlcrun.Result{OK: true}
+		for _, o := range outs {
+			if o.err != nil {
+				return false, o.res, o.err
+			}
+			if o.res != nil {
+				sum.Distinct += o.res.Distinct
+				sum.Generated += o.res.Generated
+				if !o.ok {
+					sum.Violated = o.res.Violated
+					sum.Tail = o.res.Tail
+				}
+			}
+			all = all && o.ok
+		}
+		return all, sum, nil
+	}
 	var b bytes.Buffer
 	for i, t := range traces {
 		if i > 0 {
@@ -113,7 +159,7 @@ func traceAccepted(module, cfgText string, traces [][]brk.TraceEv) (bool, *tlcru
 		}
 		b.Write(brk.MarshalTrace(t))
 	}
-	res, err := tlcrun.Run(tlcrun.Opts{Module: module, Config: "trace_run", Workers: 8, Timeout: 10 * time.Minute,
+	res, err := tlcrun.Run(tlcrun.Opts{Module: module, Config: "trace_run", Workers: 4, Timeout: 10 * time.Minute,
 		Files: map[string][]byte{"trace.ndjson": b.Bytes(), "trace_run.cfg": []byte(cfgText)}})
 	if err != nil {
 		return false, res, err
@@ -123,10 +169,6 @@ func traceAccepted(module, cfgText string, traces [][]brk.TraceEv) (bool, *tlcru
 	}
 	if res.Violated == "NotAllConsumed" {
 		return true, res, nil
-	}
-	if res.Violated != "" {
-		// a specification invariant failed on a state reached while following the trace
-		return false, res, nil
 	}
 	return false, res, nil
 }
